@@ -592,7 +592,8 @@ class Check(PropertyCheck):
                   "driven by Http1Connection.read_body) as an Incremental byte consumer, and of human.parse_size over the "
                   "regenerated SIZE_UNITS table — for ALL option values, expected sizes, wire bytes, segmentations, chunk lists "
                   "and callables (induction): over_limit_errors, buffer_bound_partial (+ buffer_bound_counterexample for the "
-                  "recorded finding), response_side_independent / request_side_independent / request_verdict_never_reaches_response / upload_unaffected_by_response_timing, "
+                  "recorded finding), stored_after_late_switch / stored_iff_option_late / content_none_until_done (what the flow keeps "
+                  "after a LATE switch to streaming), response_side_independent / request_side_independent / request_verdict_never_reaches_response / upload_unaffected_by_response_timing, "
                   "response_over_limit_errors_in_exchange, stream_starts_when_due / late_switch_when_due (when streaming is due it "
                   "starts), writer_identity_exact / reader_inverts_writer / streamed_wire_exact (the HTTP/1 writers' body framing — "
                   "transcribed and tied by the `frame` op to the real Http1Client.send / Http1Server.send — read back by the chunked "
@@ -603,7 +604,9 @@ class Check(PropertyCheck):
                   "wire_body_segmentation_independent, wire_relay_segmentation_independent, wireRun_is_run_over_segEvents / "
                   "wireRun_segmentation_independent (the tied receive path itself: the same wire bytes in any two "
                   "segmentations deliver the same bytes to the peer), parseSize laws. The model is tied to the real "
-                  "HttpLayer/HttpStream/Http1 stack run through world.py: error hook, client error, the exact chunk list the peer "
+                  "HttpLayer/HttpStream/Http1 stack run through world.py: error hook, the error response reaching the client (errClient) and the error sent upstream "
+                  "(errServer), how often the headers hook and the message hook of the direction fired, the end of the message on a "
+                  "chunked peer side, the exact chunk list the peer "
                   "receives, the buffer length after every delivery, the stored content and the readers' verdict are compared for "
                   "every Transfer-Encoding spelling the reader takes for chunked (case, coding lists with OWS/tabs, two header lines), "
                   "both directions, HTTP/1 and HTTP/2 peers on either side (all four pairs) with the response arriving before, during "
@@ -620,7 +623,11 @@ class Check(PropertyCheck):
                   "is stated for runs that end `done` without a callable (with a late switch the outcome abort-vs-stream itself "
                   "depends on the segmentation in the code). partial: buffer_bound is proved under the guard 'not "
                   "(store_streamed_bodies and streaming)'; the unguarded statement is refuted by buffer_bound_counterexample "
-                  "and recorded as finding F-C07a. Lenient branches of the oracle, all structured: the NotImplementedError crash of a "
+                  "and recorded as finding F-C07a. Not rendered by the driver, hence not compared: the ORDER of HttpStream's outputs "
+                  "among themselves (their framing order is tied by the `frame` op and asked by the oracle's well-framedness clause). "
+                  "The oracle's 'known from the bytes buffered so far' and buffer-bound clauses read the implementation's own buffer "
+                  "length (that is what the sentence is about): an implementation that under-reported len(request_body_buf) would "
+                  "silence them; the model tie compares the same samples with predicted values. Lenient branches of the oracle, all structured: the NotImplementedError crash of a "
                   "non-empty HTTP/1 trailer section is waived; the 'client receives an error' clause is waived when the delivery that "
                   "shows the excess also carries malformed chunk framing (protocol error closes first); exact-bytes for wire cases is "
                   "demanded for byte-homomorphic policies only (dup/iter depend on event boundaries); length-changing callables are not "
